@@ -95,6 +95,29 @@ func (w *sqlWorld) close() {
 	_ = os.RemoveAll(w.dir)
 }
 
+// freshSQLServer: a server over a database file that has never been used (no token secret, no rows).
+func freshSQLServer() (*sqlite.DB, *lab.Server, string) {
+	base := "/dev/shm"
+	if _, err := os.Stat(base); err != nil {
+		base = "/var/tmp"
+	}
+	dir, err := os.MkdirTemp(base, "verif-c19f-")
+	if err != nil {
+		fatal("%v", err)
+	}
+	db, err := sqlite.Open(filepath.Join(dir, "fresh.sqlite"), "")
+	if err != nil {
+		fatal("sqlite: %v", err)
+	}
+	for _, kk := range keys.Kinds {
+		key := keys.Get(kk.Alg, "owner1")
+		chain := []*x509.Certificate{keys.SelfSigned(kk.Alg+"-owner1", key)}
+		_ = db.AddOwnerKey(kk.Type, key, chain)
+		_ = db.AddManufacturerKey(kk.Type, key, chain)
+	}
+	return db, lab.NewServer("sql", "owner1", db, sqlNoMods{}), dir
+}
+
 func sqlScenarios(thorough bool) []scenario {
 	bound := 2
 	if thorough {
@@ -102,7 +125,34 @@ func sqlScenarios(thorough bool) []scenario {
 	}
 	var w *sqlWorld
 	nexec := 0
-	return []scenario{{Name: "sqlite: TO0 refresh || TO1 of the same device, scheduling point before every SQL statement", Bound: bound, Delay: true,
+	first := scenario{Name: "sqlite: the first two DI sessions of a database that was never used, scheduling point before every SQL statement", Bound: bound, Delay: true,
+		run: func(choose vsync.Chooser) (vsync.Result, [][2]string, string) {
+			db, srv, dir := freshSQLServer()
+			defer func() { _ = db.Close(); _ = os.RemoveAll(dir) }()
+			k := keys.KindByName("ec256")
+			devs := []*lab.Device{lab.NewDevice(k, protocol.X509KeyEnc, "device"), lab.NewDevice(k, protocol.X509KeyEnc, "device2")}
+			var errs [2]error
+			db.DebugLog = yieldWriter{}
+			vsync.StmtYields = false
+			vres := vsync.Run(choose, 400000, func() {
+				joinThreads(
+					func() { errs[0] = devs[0].DI(context.Background(), lab.NewWire(srv).Transport()) },
+					func() { errs[1] = devs[1].DI(context.Background(), lab.NewWire(srv).Transport()) },
+				)
+			})
+			vsync.StmtYields = true
+			db.DebugLog = nil
+			var v [][2]string
+			if len(vres.Panics) == 0 && !vres.Deadlock && !vres.Livelock {
+				for i, e := range errs {
+					if e != nil {
+						v = append(v, [2]string{"outcome-differs-from-alone:first-sessions-of-a-fresh-database", fmt.Sprintf("device %d fails DI when it is one of the first two sessions of a fresh database: %s", i, firstLine(e.Error()))})
+					}
+				}
+			}
+			return vres, v, fmt.Sprintf("di0=%v di1=%v", errs[0] == nil, errs[1] == nil)
+		}}
+	return []scenario{first, {Name: "sqlite: TO0 refresh || TO1 of the same device, scheduling point before every SQL statement", Bound: bound, Delay: true,
 		run: func(choose vsync.Chooser) (vsync.Result, [][2]string, string) {
 			if nexec++; nexec%worldLife == 0 && w != nil {
 				w.close()
